@@ -1,9 +1,10 @@
 //! E2 `simx`: exploration of a live amiquip connection under a controlled scheduler.
 mod scenarios;
 mod scn_rpc;
+mod scn_batch;
 
 fn all_scenarios() -> Vec<&'static dyn Scenario> {
-    vec![&scenarios::Basic, &scenarios::Close, &scenarios::Death, &scn_rpc::Rpc, &scn_rpc::ChClose, &scn_rpc::Wire]
+    vec![&scenarios::Basic, &scenarios::Close, &scenarios::Death, &scn_rpc::Rpc, &scn_rpc::ChClose, &scn_rpc::Wire, &scn_batch::Batch]
 }
 
 use serde_json::{json, Value};
@@ -168,7 +169,7 @@ fn supervisor(argv: &[String]) {
     }
     part.states = states.len() as u64;
     part.traces_validated = part.evaluations;
-    part.distinct_nontrivial = part.evaluations.saturating_sub(variants.len() as u64);
+    part.distinct_nontrivial = if bounds.iter().all(|b| *b == 0) { part.evaluations } else { part.evaluations.saturating_sub(variants.len() as u64) };
     part.bounds.insert("deviation_bound".into(), json!(bounds.iter().collect::<Vec<_>>()));
     part.bounds.insert("variants".into(), json!(variants.len()));
     part.extra.insert("executions_by_deviations".into(), json!(by_cost));
